@@ -82,6 +82,31 @@
      __CPROVER_POINTER_OFFSET(d) + (__CPROVER_ssize_t)(n) <= __CPROVER_POINTER_OFFSET(s) ||           \
      __CPROVER_POINTER_OFFSET(s) + (__CPROVER_ssize_t)(n) <= __CPROVER_POINTER_OFFSET(d))
 
+/* ------------------------------------------------------------------ memcpy (ISO 7.24.2.1) */
+/* The clause texts C08_MEM_ACCESS_PRE, C08_DISJOINT, C08_MEMCPY_GHOST_PRE and C08_MEMCPY_POST are, name for name,
+ * the clauses of memcpy in contracts/libc_contracts.h (what other properties assume for the host libc).
+ * The shim's memcpy is proved under the WEAKER precondition C08_FWD_OK instead of C08_DISJOINT: it copies
+ * forward, so it is also correct when dst overlaps src from below (dst <= src) - which is exactly how the
+ * shim's memmove calls it.  C08_DISJOINT implies C08_FWD_OK, hence the ISO contract follows (unit
+ * libc_memcpy_contract enforces the literal libc_contracts.h contract on a wrapper of vc_memcpy). */
+size_t g_memcpy_k; /* in: ghost index */
+char g_memcpy_v;   /* in: old src[k] */
+#define C08_MEM_ACCESS_PRE(dst, src, n) ((n) == 0 || (__CPROVER_r_ok((src), (n)) && __CPROVER_w_ok((dst), (n))))
+/* forward copy is safe: the blocks do not overlap with dst above src */
+#define C08_FWD_OK(dst, src, n)                                                                       \
+    ((n) == 0 || !__CPROVER_same_object((dst), (src)) ||                                              \
+     __CPROVER_POINTER_OFFSET(dst) <= __CPROVER_POINTER_OFFSET(src) ||                                \
+     __CPROVER_POINTER_OFFSET(src) + (__CPROVER_ssize_t)(n) <= __CPROVER_POINTER_OFFSET(dst))
+#define C08_MEMCPY_GHOST_PRE(src, n) C08_IMP(g_memcpy_k < (n), g_memcpy_v == ((const char *)(src))[g_memcpy_k])
+#define C08_MEMCPY_POST(r, dst, n)                                                                    \
+    ((r) == (dst) && C08_IMP(g_memcpy_k < (n), ((const char *)(dst))[g_memcpy_k] == g_memcpy_v))
+void *vc_memcpy(void *dst, const void *src, size_t n)
+__CPROVER_requires(C08_MEM_ACCESS_PRE(dst, src, n))
+__CPROVER_requires(C08_FWD_OK(dst, src, n))
+__CPROVER_requires(C08_MEMCPY_GHOST_PRE(src, n))
+__CPROVER_assigns(n != 0: __CPROVER_object_upto(dst, n))
+__CPROVER_ensures(C08_MEMCPY_POST(__CPROVER_return_value, dst, n));
+
 /* ------------------------------------------------------------------ strlen (ISO 7.24.6.3) */
 size_t g_strlen_L; /* in: witness, str[g_strlen_L] == 0 */
 size_t g_strlen_k; /* in: ghost index */
